@@ -398,8 +398,8 @@ def clocked_models(run, pid, th, d, rng):
         sub = [c for c in g if c["cap"] < 2 and (c["kind"] == "Emit" or c["step"] != "const")]
         sub = rng.sample(sub, min(len(sub), 16 if th else 8))
         r1 = random.Random(rng.random())
-        tasks.append(lambda: model_mc(run, "Gen", pid, g, d, maxt=6 if th else 4, maxcalls=4 if th else 3, qstep=True, view="ViewLite", only=["GenExact", "EmitPaced", "GenSettle"]))
-        tasks.append(lambda: model_mc(run, "Gen", pid, g3 if th else g3[:10], d, maxt=5 if th else 3, maxcalls=3, qstep=True))
+        tasks.append(lambda: model_mc(run, "Gen", pid, g, d, maxt=5 if th else 4, maxcalls=3, qstep=True, view="ViewLite", only=["GenExact", "EmitPaced", "GenSettle", "LiftCloses"]))
+        tasks.append(lambda: model_mc(run, "Gen", pid, g3[:24] if th else g3[:10], d, maxt=4 if th else 3, maxcalls=3, qstep=True))
         tasks.append(lambda: [dict(x, epilogue="cancel") for x in model_gen(run, "Gen", sub, d, r1, lim, maxt=4 if th else 3, maxcalls=3 if th else 2, maxsched=10 if th else 8)])
     if pid in ("C06", "C12"):
         j = [C(kind="Join", cap=c, inputs=[[100 * (i + 1) + k for k in (1, 2)] for i in range(n)]) for c in (0, 1) for n in (0, 1, 2)]
